@@ -189,6 +189,14 @@ class DevConn:
     def on_data(self, data: bytes) -> None:
         dev = self.dev
         dev.events.append((self.now(), "rx", self.id, bytes(data)))
+        if getattr(self, "hung_up", False):
+            # the device has closed this connection: a real stack answers late data with a reset and processes nothing
+            dev.events.append((self.now(), "conn", self.id, "data-after-close"))
+            try:
+                self.t.peer_rst()
+            except Exception:  # noqa: BLE001
+                pass
+            return
         if self.wedged:
             return
         self.buf += data
@@ -264,8 +272,10 @@ class DevConn:
     def _run_items(self, items) -> None:
         for what in items:
             if what == "fin":
+                self.hung_up = True
                 self.t.peer_fin()
             elif what == "rst":
+                self.hung_up = True
                 self.t.peer_rst()
             elif what == "wedge":
                 self.wedged = True
